@@ -654,13 +654,11 @@ impl Server {
                     if name == "cssp-pubkeyauth-reply" {
                         self.nla_final_pump = self.pumps;
                     }
-                    // TSRequests travel one per TLS record
+                    // a TSRequest is a message of its own; like any other it may be cut between two TLS records
                     self.flush();
                     let w = { let mut w = Wr::new(); w.bytes("tsrequest", &bytes); w };
-                    let keep = std::mem::replace(&mut self.packing, Packing::OnePerRecord);
                     self.queue(&name, &w);
                     self.flush();
-                    self.packing = keep;
                 }
                 if step.dead {
                     self.phase = Phase::Dead;
